@@ -34,4 +34,11 @@ TEXT = {
         "design_ref": "DESIGN.md section 2, C15",
         "level_note": "Trusted base: hlref, hlsim, rapid, synctest; bcrypt at MinCost as shipped. One known finding (names with a leading newline, yaml.v3) is excluded from the generator and decided by its own test.",
     },
+    "C05": {
+        "engine": "E1 bubble world",
+        "technique": "table-driven property-based testing: independent privilege table x generated requester bitmaps (enumerated single bits + rapid-generated backgrounds), metamorphic has/hasn't oracle with effect observers, snapshots and observer clients",
+        "level_text": "Every one of the 43 registered transaction types is placed in one or more cells (by target kind) with its governing privilege numbers taken from the protocol's privilege list; each cell is run with every single-privilege bitmap, all, none, all-but-one-governing (enumerated) and with rapid-generated 64-bit backgrounds. Both directions are checked: no effect without the privilege (error reply, nothing changes anywhere observable) and no refusal with it.",
+        "design_ref": "DESIGN.md section 2, C05",
+        "level_note": "Trusted base: the cell table in harness/props/c05_test.go, hlref, hlsim, rapid, synctest. Field contents are fixed valid values per cell (the property's 'all field contents' is covered for well-formed requests only; hostile fields are C03/C07).",
+    },
 }
